@@ -6,7 +6,7 @@ CONSTANT Bound   \* values 0..Bound-1 and -Bound..Bound-1 are enumerated
 
 L1 == \A v \in 0..(Bound - 1) : TruncU(v, NeededBytes(v)) = v
 L2 == \A v \in 0..(Bound - 2) : NeededBytes(v) <= NeededBytes(v + 1)
-L3 == \A v \in 0..(Bound - 1) : \A w \in 1..4 : FitsU(v, w) <=> NeededBytes(v) <= w
+L3 == \A v \in (-3)..(Bound - 1) : \A w \in 1..4 : FitsU(v, w) <=> (v >= 0 /\ v < Pow(Radix, w))
 L4 == \A v \in (-Bound)..(Bound - 1) : TruncS(v, SNeededBytes(v)) = v
 L5 == \A v \in (-Bound)..(Bound - 1) : \A w \in 1..4 : FitsS(v, w) <=> TruncS(v, w) = v
 (* the root of finding F2: the unsigned-magnitude width is too small exactly on the sign bit *)
